@@ -183,6 +183,49 @@ func empiricalPiZeroOnly(rows []string, sel []bool, w []float64, spread bool) []
 	return num
 }
 
+// countAtThreshold: the weights are not multiples of 1/4 and, under some reading, the weighted count of an amino
+// acid is within 1e-9 of the pseudo count threshold 1/20 (rounding of the sums is below 1e-13 for the sizes
+// generated here).
+func countAtThreshold(rows []string, o opts) bool {
+	quarters := true // unit, integer and k/4 weights: the sums that can reach 1/20 are exact or of two terms, no order
+	for _, w := range o.Weights {
+		quarters = quarters && w*4 == math.Floor(w*4)
+	}
+	if quarters {
+		return false
+	}
+	for _, rs := range []bool{true, false} {
+		sel := selection(rows, o, reading{RmStrict: rs})
+		for _, spread := range []bool{true, false} {
+			num := make([]float64, 20)
+			for _, r := range rows {
+				for c := 0; c < len(r); c++ {
+					if sel != nil && !sel[c] {
+						continue
+					}
+					x := 1.0
+					if o.Weights != nil {
+						x = o.Weights[c]
+					}
+					if i := aaIndex[r[c]]; i >= 0 {
+						num[i] += x
+					} else if spread {
+						for k := range num {
+							num[k] += x / 20
+						}
+					}
+				}
+			}
+			for _, v := range num {
+				if math.Abs(v-1.0/20) <= 1e-9 {
+					return true
+				}
+			}
+		}
+	}
+	return false
+}
+
 // readingsFor lists the readings that can differ for this input (deduplicated by their effect).
 func readingsFor(rows []string, o opts) []reading {
 	var out []reading
@@ -733,8 +776,16 @@ func runMatrix(c *mon.Case) {
 			}
 		}
 	}
+	// Empirical frequencies get a pseudo count when the count of an amino acid is below 1/20. A count that equals
+	// 1/20 in exact arithmetic (weights k/87 and an unknown residue spread over the 20 amino acids are enough) is
+	// below or not below the threshold by the rounding of a floating point sum, that is by the order of the rows
+	// and columns. At such a tie both decisions are the documented rule; the two orders are not compared.
+	tie := !o.ModelFreqs && countAtThreshold(rows, o)
+	if tie {
+		c.Count("perm:not-compared:count-at-the-pseudo-count-threshold")
+	}
 	// reordering the sequences permutes the matrix
-	if n >= 2 && r.Chance(0.6) {
+	if n >= 2 && !tie && r.Chance(0.6) {
 		p := r.Perm(n)
 		rows2 := make([]string, n)
 		for i := range rows2 {
@@ -756,7 +807,7 @@ func runMatrix(c *mon.Case) {
 		}
 	}
 	// reordering the columns (with their weights) leaves the matrix unchanged
-	if L >= 2 && r.Chance(0.6) {
+	if L >= 2 && !tie && r.Chance(0.6) {
 		p := r.Perm(L)
 		o2 := o
 		var rows2 []string
